@@ -389,6 +389,11 @@ func AddAliases(indexName string, aliases []string, orgid int64) error {
 		log.Errorf("AddAliases: len of aliases is 0. len(aliases)=%v", alLen)
 		return errors.New("len of aliases is 0")
 	}
+	for _, name := range append([]string{indexName}, aliases...) {
+		if !utils.IsSafePathComponent(name) {
+			return fmt.Errorf("AddAliases: invalid index or alias name %q", name)
+		}
+	}
 
 	currentAliases, err := GetAliases(indexName, orgid)
 	if err != nil {
@@ -605,9 +610,9 @@ func IsAlias(nameToCheck string, orgid int64) (bool, string) {
 }
 
 func RemoveAliases(indexName string, aliases []string, orgid int64) error {
-	if indexName == "" {
-		log.Errorf("RemoveAliases: indexName is null.len(indexName)=%v", len(indexName))
-		return errors.New("indexName is null")
+	if !utils.IsSafePathComponent(indexName) {
+		log.Errorf("RemoveAliases: invalid indexName=%q", indexName)
+		return errors.New("indexName is invalid")
 	}
 
 	alLen := len(aliases)
